@@ -133,8 +133,15 @@ def get_initial_value(cx):
     cx.call('_assign_replace_is_necessary', lambda ex, st, r, a, kw: VB(NEC(a[0].t, toreal(a[1]))), trusted='_assign_replace_is_necessary')
     cx.call('_replace_assign', lambda ex, st, r, a, kw: VR(REP(toreal(a[0]), a[1].t)), trusted='_replace_assign contract (above)')
     frees = cx.seq('remaining_variables', DRef('Symbol'))
-    cx.attr('free_symbols', lambda ex, st, o: V('opaque'))
-    cx.call('difference', lambda ex, st, r, a, kw: V('set', frees.t, ek=DRef()), trusted='monom.free_symbols - program.symbols: the program variables of the monomial')
+    cx.attr('free_symbols', lambda ex, st, o: V('fs', toreal(o)))
+
+    def difference(ex, st, r, a, kw):
+        # D31: the variables to rename are those of the pushed-back EXPRESSION (they may have entered through right-hand sides of the initial
+        # block), not those of the goal monomial
+        ok = r.kind == 'fs' and 'result' in st.vars and r.t.eq(toreal(st['result']))
+        ex.need(st, z3.BoolVal(bool(ok)), 'initial-symbols.of-the-pushed-back-expression@0', 'ensures')
+        return V('set', frees.t, ek=DRef())
+    cx.call('difference', difference, trusted='e.free_symbols - program.symbols: the program variables occurring in e')
     SUB = z3.Function('replace_by_initial_symbol', R, REF, R)
     cx.call('Symbol', lambda ex, st, r, a, kw: V('opaque'))
     cx.call('xreplace', lambda ex, st, r, a, kw: VR(SUB(toreal(r), st['sym'].t)), trusted='xreplace({v: v0})')
